@@ -17,21 +17,8 @@ def fmt_has_epoch(fmt):
     return any(x[1] == "epoch" for x in Formatter().parse(fmt))
 
 
-def paths_for(sc, epoch):
-    """Checkpoint paths of an epoch; formats may use the epoch and the two metrics."""
-    p = sc["params"]
-    tm, vm = sc["metrics"][epoch - 1] if 1 <= epoch <= len(sc["metrics"]) else (float("inf"), float("inf"))
-    info = {"epoch": epoch, "train_met": tm, "val_met": vm}
-    return (
-        posixpath.normpath(posixpath.join(sc["state_dir"], p["saved_model_fmt"].format(**info))),
-        posixpath.normpath(posixpath.join(sc["state_dir"], p["saved_optimizer_fmt"].format(**info))),
-    )
-
-
-def collides(sc, epoch, earlier):
-    """Does a checkpoint path of ``epoch`` equal one of an epoch in ``earlier``?"""
-    mine = set(paths_for(sc, epoch))
-    return any(mine & set(paths_for(sc, e)) for e in earlier if e != epoch)
+paths_for = ts.paths_for
+collides = ts.collides
 
 
 def state_files(fs, sc):
@@ -131,7 +118,14 @@ def check_recovery(job, res, twin_rows, ctx):
         return False
     got = ts.csv_rows(fs, sc)
     rows = got[0] if got else []
-    hist_epochs = sorted(k for k in job.ctrl.cache_hist if k)
+    hist_epochs = []  # what the controller has on record, through its public methods
+    try:
+        last = job.ctrl.get_last_epoch()
+        for k in range(1, last + 1):
+            if int(job.ctrl.get_info(k)["epoch"]) == k:
+                hist_epochs.append(k)
+    except Exception as e:  # noqa
+        hist_epochs.append(f"{type(e).__name__}: {e}")
     if hist_epochs != [int(r["epoch"]) for r in rows]:
         res.violate("recover.history-parse", f"controller sees epochs {hist_epochs}, file has {[r['epoch'] for r in rows]}", **ctx)
         return False
